@@ -44,6 +44,10 @@ def stmts(n, ctx):
     in_loop, in_routine, callables, loopvar, depth, ext = ctx
     out = []
     if n == 1:
+        if ext == 2 and depth < 4:
+            # empty blocks: `if c begin end`, `if c S else begin end` is cost 2 below, empty loop body
+            out.append(('if', ((T, ()),), None))
+            out.append(('repeat', ('count', ('num', 2)), ()))
         out.append(('M',))
         if in_loop:
             out.append(('break',))
@@ -54,6 +58,7 @@ def stmts(n, ctx):
             out.append(('callst', f, (), True))
         if ext:
             out.append(('callst', 'f', (), False))
+        if ext == 2:
             # a row/column command: its code ends in `END matrix`, the other user of the END op-code
             out.append(('act', 'set', (('matrix', ('str', 'm'), (('num', 0), None), None),)))
         return tuple(out)
@@ -61,6 +66,11 @@ def stmts(n, ctx):
         return ()
     sub = (in_loop, in_routine, callables, loopvar, depth + 1, ext)
     body_n = n - 1
+    if ext == 2:
+        for c in (T, Fa):
+            for b in blocks(body_n, sub):
+                out.append(('if', ((c, b),), ()))          # else begin end
+                out.append(('if', ((c, ()),), b))          # if c begin end else B
     # if c B
     for c in _conds(ctx):
         for b in blocks(body_n, sub):
@@ -215,14 +225,15 @@ def _walk(block, ev):
             _walk(s[2], ev)
 
 
-def extended_programs(max_nodes):
+def extended_programs(max_nodes, rich_nodes=4):
     """Control skeletons with a routine definition in *every* statement position
     the grammar has (inside if and repeat bodies too), every loop kind (incl.
     light iteration and `repeat` forever) around break, return at every depth.
     Valid = at most one definition, every call textually after its end."""
     from . import render
-    top = (False, False, (), None, 0, True)
     for n in range(1, max_nodes + 1):
+        # the rich alphabet (empty blocks, a row/column command) up to rich_nodes, the plain one above
+        top = (False, False, (), None, 0, 2 if n <= rich_nodes else 1)
         for b in blocks(n, top):
             ev = []
             _walk(b, ev)
